@@ -112,7 +112,7 @@ def build_driver(out):
 def generate(cfg, out):
     d = os.path.join(WORK, TAG, cfg["name"])
     os.makedirs(d, exist_ok=True)
-    world = corpus.world()
+    world = corpus.world(cfg)
     wit = os.path.join(d, "w.wit")
     with open(wit, "w") as f:
         f.write(world.wit_text())
@@ -208,41 +208,23 @@ def run_units(units, prop, tier, out, use_cache=True):
                 need.append(n)
         if need:
             todo.append((u, need))
-    # two cargo-kani invocations at a time, each with its own --target-dir (worker slot), JOBS CBMC processes in total
-    nworkers = 2 if len(todo) > 1 else 1
-    per = max(1, JOBS // nworkers)
-    lock = threading.Lock()
-    queue = list(todo)
+    # one cargo-kani invocation at a time (one compilation per crate), JOBS CBMC processes inside it
     t_kani = [0.0]
-
-    def worker(slot):
-        while True:
-            with lock:
-                if not queue:
-                    return
-                u, need = queue.pop(0)
-            crate = os.path.join(u["dir"], "crate")
-            kani.write_crate(crate, u["lib"], u["cfg"]["std"], bitflags=u["cfg"]["bitflags"])
-            jobs = per if len(todo) > 1 else JOBS
-            res, dt, txt = kani.run_harnesses(crate, need, slot, jobs, timeout=ht * (2 + len(need) // max(1, jobs)), harness_timeout=ht,
-                                              log=os.path.join(u["dir"], "kani_%s.log" % prop))
-            with lock:
-                t_kani[0] += dt
-            for n in need:
-                r = res[n]
-                r["cached"] = False
-                if r["status"] == "failed" and not r["failed"]:
-                    r["status"] = "error"
-                    r["detail"] = "FAILED without a failed check (CBMC killed: memory/time cap)"
-                u["results"][n] = r
-                if r["status"] in ("ok", "failed"):
-                    kani.cache_put(u["harnesses"][n]["key"], {k: v for k, v in r.items() if k != "cached"})
-
-    ths = [threading.Thread(target=worker, args=(i,)) for i in range(nworkers)]
-    for t in ths:
-        t.start()
-    for t in ths:
-        t.join()
+    for u, need in todo:
+        crate = os.path.join(u["dir"], "crate")
+        kani.write_crate(crate, u["lib"], u["cfg"]["std"], bitflags=u["cfg"]["bitflags"])
+        res, dt, txt = kani.run_harnesses(crate, need, 0, JOBS, timeout=ht * (2 + len(need) // max(1, JOBS)), harness_timeout=ht,
+                                          log=os.path.join(u["dir"], "kani_%s.log" % prop))
+        t_kani[0] += dt
+        for n in need:
+            r = res[n]
+            r["cached"] = False
+            if r["status"] == "failed" and not r["failed"]:
+                r["status"] = "error"
+                r["detail"] = "FAILED without a failed check (CBMC killed: memory/time cap)"
+            u["results"][n] = r
+            if r["status"] in ("ok", "failed"):
+                kani.cache_put(u["harnesses"][n]["key"], {k: v for k, v in r.items() if k != "cached"})
     out.extra["kani_wall_s"] = round(t_kani[0], 1)
 
 
@@ -257,7 +239,8 @@ def confirm(u, name, meta, prop, fails, tier):
     key = u["harnesses"][name]["key"] + "_pb"
     pb = kani.cache_get(key)
     if pb is None:
-        pb = kani.playback(crate, u["lib"], name, 0, 1800, os.path.join(u["dir"], "playback_%s" % name))
+        pb = kani.playback(crate, u["lib"], name, 0, 1800, os.path.join(u["dir"], "playback_%s" % name),
+                           descs=[f["desc"] for _, f in fails])
         if pb.get("test"):
             kani.cache_put(key, pb)
     return pb
